@@ -6,6 +6,15 @@ CHECKS = {
  'C01': ('generated languages x models against an independent set-semantics evaluator (Hypothesis) + exhaustive small operand/link/type spaces',
          'No counter-example among the enumerated sub-spaces (all operand pairs over 3 assets, all 2^9 link relations under *, all type assignments for the subtype filter) and N random (language, model) pairs; exploration, not proof.',
          'Trusts the harness evaluator mtv/ref_eval.py (written from the MAL semantics) and that generated languages are what malc accepts.', '5/C01'),
+ 'C02': ('generated languages x models (colliding / odd names, explicit ids, non-default defenses, existence steps) against expected node set and attributes from the reference fold and evaluator',
+         'No counter-example in N random cases; node multiset, attributes, id / name uniqueness and both lookups are compared for every node of every case.',
+         'Trusts mtv/ref_lang.py (inheritance fold) and mtv/ref_eval.py; the rename scheme is not prescribed, only uniqueness.', '5/C02'),
+ 'C03': ('generated inheritance-heavy languages x operation histories (lookups, re-construction, regeneration, attack-graph and class generation) against the reference fold; specification snapshot comparison',
+         'No counter-example in N random histories; after every operation the resolved steps are compared through three observation points and the specification dict with its snapshot.',
+         'Trusts the reference fold in mtv/ref_lang.py; the private per-type resolver is observed when present.', '5/C03'),
+ 'C05': ('model-based testing: operation histories interpreted on Model and on an abstract reference model in lock step; bounded-exhaustive short histories + Hypothesis-generated long ones',
+         'All histories of length <=3 (quick) / <=4 (thorough) over a 16-operation alphabet are enumerated completely; longer histories are random. Exploration.',
+         'Trusts mtv/ref_model.py; objects compare by value in the toolbox, so operations passing a removed object that equals a live one are not generated.', '5/C05'),
 }
 NOT_APPLICABLE = {}
 
